@@ -680,7 +680,8 @@ class World:
 
     def finish(self):
         """tear down (not part of the history)."""
-        import ndn.utils
+        nlog, ti = len(self.log), self.clock.i
+        self.end_last_ts = self.last_ts()
         try:
             if self.connected:
                 self.face.shutdown()
@@ -697,11 +698,17 @@ class World:
                 self.after_coro.close()
             self.errors = [str(c.get('exception') or c.get('message'))[:80] for c in self.loop.collect_errors()]
         finally:
+            del self.log[nlog:]          # what the teardown cancels is not part of the history
+            self.clock.i = ti
             for mod, attr, val in self.saved:
                 setattr(mod, attr, val)
             self.loop.close()
 
+    end_last_ts = 'live'
+
     def last_ts(self):
+        if self.end_last_ts != 'live':
+            return self.end_last_ts
         o = self.app.registerer if self.fe == 2 else self.app
         return getattr(o, '_last_command_timestamp', None)
 
@@ -938,11 +945,8 @@ def reply_class(r):
     return 'data' + ('' if r[2] else '-badsig')
 
 
-def run_protocol(ctx):
-    rng = ctx.rng
-    M = ctx.call
-    # the protocol records of the source under test, through the same translator that writes Generated/RegProto.v
-    p = None
+def load_protocols(ctx):
+    """the protocol records of the source under test, through the same translator that writes Generated/RegProto.v"""
     try:
         import importlib.util
         import os
@@ -951,14 +955,21 @@ def run_protocol(ctx):
         gp = importlib.util.module_from_spec(spec)
         spec.loader.exec_module(gp)
         recs = gp.analyse_all()
-        p = {2: (gp.sexp_proto(recs['v2_register']), gp.sexp_proto(recs['v2_unregister'])),
-             1: (gp.sexp_proto(recs['v1_register']), gp.sexp_proto(recs['v1_unregister']))}
         ctx.extra['protocols'] = recs
         if gp.response_type() != 0x65:
             ctx.disagree('parse_response', 'response TLV type in the source is not 0x65', {}, gp.response_type(), 0x65)
+        return {2: (gp.sexp_proto(recs['v2_register']), gp.sexp_proto(recs['v2_unregister'])),
+                1: (gp.sexp_proto(recs['v1_register']), gp.sexp_proto(recs['v1_unregister']))}
     except SystemExit as e:
         # fail-closed translation: no model to compare with; the specification is still evaluated on the implementation
         ctx.disagree('gen_regproto', f'translation of the registration functions aborted: {e}', {}, None, None)
+        return None
+
+
+def run_protocol(ctx):
+    rng = ctx.rng
+    M = ctx.call
+    p = load_protocols(ctx)
     for it in range(ctx.n(600, 8000)):
         fe = 2 if rng.random() < 0.55 else 1
         cname, readings, step = rand_clock(rng)
@@ -983,42 +994,90 @@ def run_protocol(ctx):
             ctx.stat('reply:' + c)
         ctx.stat('commands', ncmd)
         ctx.stat('receive_raised', w.raised_in_receive)
-        for site, cls, what in w.viol:
-            ctx.violation(site, cls, what, case)
-        # ---- correspondence ----
-        m = M([6, p[fe][0], p[fe][1], [readings, step], evs]) if p is not None else None
-        if m is not None and is_err(m):
-            ctx.disagree('Registerer.run', 'model bad request', case, m, None)
+        evaluate_history(ctx, w, case, p)
+
+
+def evaluate_history(ctx, w, case, p):
+    """correspondence with the machine + the extracted specification on the implementation's log."""
+    M = ctx.call
+    fe, (readings, step), evs = case['frontend'], case['clock'], case['events']
+    for site, cls, what in w.viol:
+        ctx.violation(site, cls, what, case)
+    m = M([6, p[fe][0], p[fe][1], [readings, step], evs]) if p is not None else None
+    if m is not None and is_err(m):
+        ctx.disagree('Registerer.run', 'model bad request', case, m, None)
+        return
+    mlog = [canon_obs(o) for o in m[0]] if m is not None else None
+    ilog = [canon_obs(o) for o in w.log]
+    if m is None:
+        pass
+    elif mlog != ilog:
+        k = next((j for j in range(min(len(mlog), len(ilog))) if mlog[j] != ilog[j]), min(len(mlog), len(ilog)))
+        ctx.disagree(w.site(), f'observable logs differ at entry {k}', case,
+                     {'at': k, 'entry': mlog[k] if k < len(mlog) else None, 'len': len(mlog)},
+                     {'at': k, 'entry': ilog[k] if k < len(ilog) else None, 'len': len(ilog), 'notes': w.notes[:4]})
+    else:
+        lt = w.last_ts()
+        if lt is not None and lt != num(m[2]):
+            ctx.disagree(w.site(), 'last command timestamp differs', case, num(m[2]), lt)
+        if w.clock.i != num(m[3]):
+            ctx.disagree(w.site(), 'number of clock readings differs', case, num(m[3]), w.clock.i)
+    validates = (fe == 1)
+    res = M([7, validates, w.log])
+    if is_err(res) or len(res) != 6:
+        ctx.disagree('Spec.Registration', 'bad request', case, res, None)
+        return
+    names = ['success-iff-200', 'raises', 'one-at-a-time', 'timestamps', 'one-command-per-call', 'autoreg']
+    for ok, nm in zip(res, names):
+        if ok:
             continue
-        mlog = [canon_obs(o) for o in m[0]] if m is not None else None
-        ilog = [canon_obs(o) for o in w.log]
-        if m is None:
-            pass
-        elif mlog != ilog:
-            k = next((j for j in range(min(len(mlog), len(ilog))) if mlog[j] != ilog[j]), min(len(mlog), len(ilog)))
-            ctx.disagree(w.site(), f'observable logs differ at entry {k}', case,
-                         {'at': k, 'entry': mlog[k] if k < len(mlog) else None, 'len': len(mlog)},
-                         {'at': k, 'entry': ilog[k] if k < len(ilog) else None, 'len': len(ilog), 'notes': w.notes[:4]})
-        else:
-            lt = w.last_ts()
-            if lt is not None and lt != num(m[2]):
-                ctx.disagree(w.site(), 'last command timestamp differs', case, num(m[2]), lt)
-            if w.clock.i != num(m[3]):
-                ctx.disagree(w.site(), 'number of clock readings differs', case, num(m[3]), w.clock.i)
-        # ---- direct oracle: the extracted specification on the implementation's log ----
-        validates = (fe == 1)
-        res = M([7, validates, w.log])
-        if is_err(res) or len(res) != 6:
-            ctx.disagree('Spec.Registration', 'bad request', case, res, None)
-            continue
-        names = ['success-iff-200', 'raises', 'one-at-a-time', 'timestamps', 'one-command-per-call', 'autoreg']
-        for ok, nm in zip(res, names):
-            if ok:
-                continue
-            site, cls, what = diagnose(ctx, w, nm, validates)
-            ctx.violation(site, cls, what, case)
-        if w.errors:
-            ctx.stat('loop_errors', len(w.errors))
+        site, cls, what = diagnose(ctx, w, nm, validates)
+        ctx.violation(site, cls, what, case)
+    if w.errors:
+        ctx.stat('loop_errors', len(w.errors))
+
+
+def replay_history(ctx, case):
+    """run one recorded history (a 'case' of a protocol violation / disagreement) on the implementation."""
+    w = World(ctx, case['frontend'], case['clock'][0], case['clock'][1], case.get('local', True))
+    w.viol = []
+    try:
+        for e in case['events']:
+            t = e[0]
+            if t == 0:
+                w.ev_call(e[1], e[2])
+            elif t == 1:
+                w.ev_reply(e[1], e[2])
+            elif t == 2:
+                w.ev_tick()
+            elif t == 3:
+                w.ev_junk(0)
+            elif t == 4:
+                w.ev_route(e[1])
+            elif t == 5:
+                w.ev_connect()
+            elif t == 6:
+                w.ev_disconnect()
+    finally:
+        w.finish()
+    return w
+
+
+def replay(ctx, data):
+    """./check C17 --replay <file>: protocol cases are re-run alone; codec cases repeat the full run."""
+    import logging
+    from harness.lib.core import unjson
+    case = unjson(data.get('case')) if isinstance(data, dict) else None
+    if not (isinstance(case, dict) and 'events' in case and 'frontend' in case):
+        return run(ctx)
+    logging.disable(logging.CRITICAL)
+    try:
+        w = replay_history(ctx, case)
+        ctx.case(('replay', repr(case)), True, case, 'replay')
+        evaluate_history(ctx, w, case, load_protocols(ctx))
+        ctx.notes.append('log of the implementation: ' + repr(w.log)[:3000])
+    finally:
+        logging.disable(logging.NOTSET)
 
 
 def canon_obs(o):
